@@ -269,6 +269,7 @@ PROPS = {
                              "which element numpy places where (numpy semantics: bounded conformance)"]),
     "C10": dict(level="other", contracts=["numpoly.simple_dispatch", "numpoly.sum", "numpoly.cumsum", "numpoly.mean", "numpoly.diff",
                                           "numpoly.multiply", "numpoly._prod", "numpoly.prod", "numpoly.outer"],
+                statics=[statics.instance_state_obligations],
                 explanation="sum/cumsum/mean are proved to apply numpy.sum/cumsum/mean to every coefficient column of the operand with "
                 "axis/dtype/keepdims forwarded unchanged (contract of simple_dispatch: every column written, rows/names kept); that a "
                 "linear column-wise reduction denotes the finite sum of the elements is bridge B5. diff is proved: the operands "
@@ -356,7 +357,7 @@ PROPS = {
                 assumptions=["B1 (abstract value depends only on the sparse coefficient map)"],
                 not_decided=["savetxt/loadtxt round trip (bounded only)", ".copy() itself is numpy's ndarray.copy (trusted) + __array_finalize__ (proved)"]),
     "C16": dict(level="other", contracts=["numpoly.glexsort", "numpoly.array_repr._to_string", "numpoly.array_repr.to_string"],
-                statics=[display.static_obligations],
+                statics=[display.static_obligations, statics.instance_state_obligations],
                 explanation="Order clause: static obligations (AST of array_repr.py, every run) establish that _to_string visits the "
                 "terms in the order numpoly.glexsort returns for the exponent rows with graded/reverse taken from the display_graded/"
                 "display_reverse options of the current option map, reversed exactly when display_inverse is set, one chunk appended "
@@ -384,6 +385,7 @@ PROPS = {
                    "numpoly.polynomial_from_attributes", "numpoly.clean_attributes", "numpoly.ndpoly", "numpoly.ndpoly.exponents",
                    "numpoly.ndpoly.coefficients", "numpoly.ndpoly.values", "numpoly.ndpoly.__array_finalize__", "numpoly.ndpoly.todict",
                    "numpoly.polynomial", "numpoly.aspolynomial"],
+        statics=[statics.instance_state_obligations],
         trusted_base=COMMON_TRUSTED + [
             "ndpoly.__new__ and the accessors .exponents/.coefficients/.values are verified from their source (contracts/codec.py) "
             "against the model engine/polymodel.py uses for them at call sites; numpy axioms of engine/codecmodel.py",
